@@ -12,7 +12,7 @@ from .core import AnchorLost, CFG, callee_of, hir_calls, res_name, short, walk
 
 EXPLANATION = (
     "RF3 loop-structure rule over the typed HIR of Machine::dispatch_loop and "
-    "Machine::verify_attr_dispatch_loop (poll call is a direct statement of the outer loop after the "
+    "Machine::verify_attr_dispatch_loop (poll call is a direct statement, or the condition of an `if` statement, of the outer loop after the "
     "bounded inner loop; counter type is Wrapping<u8>; no labelled continue to the outer loop), RF2/RF3 "
     "order of swap -> throw -> backtrack in the MIR of check_for_interrupt, RF4 who touches the INTERRUPT static."
 )
@@ -28,7 +28,9 @@ def loop_structure(F, R, fn, tag):
     label = o["label"]
     ss = list(o["body"]["stmts"]) + ([o["body"]["expr"]] if "expr" in o["body"] else [])
     inner_idx = [i for i, s in enumerate(ss) if s["k"] == "Loop"]
-    poll_idx = [i for i, s in enumerate(ss) if s["k"] in ("MethodCall", "Call") and (s.get("resolved") or s.get("callee") or "").endswith("::check_for_interrupt")]
+    is_poll = lambda s: s["k"] in ("MethodCall", "Call") and (s.get("resolved") or s.get("callee") or "").endswith("::check_for_interrupt")
+    # the poll is a statement of the outer loop, or the condition of an `if` that is one (evaluated on every cycle either way)
+    poll_idx = [i for i, s in enumerate(ss) if is_poll(s) or (s["k"] == "If" and any(is_poll(x) for x in walk(s["cond"])))]
     R.ob("C31:%s:polls-every-outer-cycle" % tag, len(inner_idx) == 1 and len(poll_idx) >= 1 and poll_idx[0] > inner_idx[0],
          "the outer loop must consist of the bounded inner loop followed by an unconditional check_for_interrupt() (inner at %s, poll at %s of %d statements)" % (inner_idx, poll_idx, len(ss)), F.where(fn))
     conts = [n for n in walk(o) if n["k"] == "Continue" and n.get("label") == label]
@@ -61,13 +63,44 @@ def run(ctx, R):
     swap = g.call_blocks(lambda t: re.search(r"atomic::(AtomicBool|Atomic::<bool>)::swap$", callee_of(t)) is not None)
     thr = g.call_blocks(lambda t: callee_of(t).endswith("::throw_interrupt_exception"))
     bt = g.call_blocks(lambda t: re.search(r"MachineState>?::backtrack$", callee_of(t)) is not None)
-    if len(swap) != 1 or len(thr) != 1 or len(bt) != 1:
+    if len(swap) != 1 or len(thr) != 1 or len(bt) > 1:
         raise AnchorLost("check_for_interrupt: swap %s throw %s backtrack %s" % (swap, thr, bt))
     args = mir["blocks"][swap[0]]["t"]["args"]
     clears = len(args) >= 2 and args[1].get("c", "").endswith("false")
     R.ob("C31:poll:clears-flag-atomically", clears, "the poll must be INTERRUPT.swap(false, ..): read and clear in one step (argument %s)" % (args[1] if len(args) > 1 else None), F.where(cf))
-    R.ob("C31:poll:throw-then-backtrack", swap[0] in dom.get(thr[0], ()) and thr[0] in dom.get(bt[0], ()),
-         "a set flag must raise the interrupt exception and then backtrack into the handler search", F.where(cf))
+    is_bt = lambda r: re.search(r"MachineState>?::backtrack$", r) is not None
+    if bt:
+        # shape A: the poll itself backtracks into the handler search
+        R.ob("C31:poll:throw-then-backtrack", swap[0] in dom.get(thr[0], ()) and thr[0] in dom.get(bt[0], ()),
+             "a set flag must raise the interrupt exception and then backtrack into the handler search", F.where(cf))
+    else:
+        R.ob("C31:poll:throw-then-backtrack", swap[0] in dom.get(thr[0], ()),
+             "a set flag must raise the interrupt exception (the callers backtrack: see C31:poll-site:*)", F.where(cf))
+    # every poll site: when the poll does not backtrack itself (shape B), the site must test the result and
+    # backtrack before anything else runs; in shape A the sites are only counted
+    sites = 0
+    for p in F.callers_of(cf) if hasattr(F, "callers_of") else [q for q, it in F.items.items() if it["kind"] in ("Fn", "AssocFn", "Closure") and it["file"].startswith("src/")]:
+        try:
+            h = F.hir(p)
+        except Exception:
+            continue
+        calls = [n for n in walk(h["body"]) if n["k"] == "MethodCall" and (n.get("resolved") or n.get("callee") or "").endswith("::check_for_interrupt")]
+        if not calls:
+            continue
+        sites += len(calls)
+        if bt:
+            continue
+        guarded = set()
+        for n in walk(h["body"]):
+            if n["k"] == "If" and any(is_bt(r) for _, r, _ in hir_calls(n["then"])):
+                for c in walk(n["cond"]):
+                    if any(c is x for x in calls):
+                        guarded.add(id(c))
+        for i, c in enumerate(calls):
+            R.ob("C31:poll-site:%s@%d:interrupt-taken-then-backtracks" % (short(p), i), id(c) in guarded,
+                 "check_for_interrupt() only raises the interrupt; this site (line %s) continues without testing the result and backtracking, so the next "
+                 "instruction runs with the ball set, `fail` true and `p` still inside the interrupted goal" % c["ln"], F.where(p))
+    R.floor("poll sites", sites, 4)
     # ---- RF4: accessors of the static ------------------------------------------------------------------
     users = {}
     for p, it in F.items.items():
